@@ -223,6 +223,17 @@ where
         out.cap = c;
     }
     out.max_write = opts.max_write;
+    // (not in C05: its crash points are numbered by the writes of the uninterrupted run, which must be the same run)
+    if opts.max_write == 0 && opts.faults.is_empty() && crate::engine::current_prop() != "C05" {
+        // an output need not take a whole buffer per write call (a file takes at most 2 MiB, a socket less): for a quarter
+        // of the fault-free cases the in-memory output accepts only 3 or 64 bytes per call — a function of the case
+        // (engine::case_salt), so a replay does the same. The write log coalesces contiguous calls after one seek.
+        out.max_write = match (crate::engine::case_salt() >> 16) % 8 {
+            0 => 3,
+            1 => 64,
+            _ => 0,
+        };
+    }
     if opts.block_dev {
         let size = out.data.len() as u64;
         if size < archive.total_source_size() {
